@@ -168,13 +168,16 @@ def build(p, rnd, gen, crashers=False):
   acts = [['AddRecord', '_grist_ACLResources', -(i + 1), {'tableId': t, 'colIds': c}] for i, (t, c) in enumerate(res)]
   acts.append(['AddRecord', '_grist_ACLRules', None, {'resource': -1, 'userAttributes': json.dumps(
       {'name': 'Att', 'tableId': 'Schools', 'lookupColId': 'Email', 'charId': 'Email'})}])
-  acts.append(['AddRecord', '_grist_ACLRules', None, {'resource': -1, 'userAttributes': json.dumps(
-      {'name': 'Own', 'tableId': 'Students', 'lookupColId': 'name', 'charId': 'Name'})}])
+  own_rule = ['AddRecord', '_grist_ACLRules', None, {'resource': -1, 'userAttributes': json.dumps(
+      {'name': 'Own', 'tableId': 'Students', 'lookupColId': 'name', 'charId': 'Name'})}]
   for i in range(len(res)):
     for j in range(2):
       acts.append(['AddRecord', '_grist_ACLRules', None, {'resource': -(i + 1), 'aclFormula': gen.formula(cols)[0],
                                                          'permissionsText': rnd.choice(['all', 'none', '+R', '-U'])}])
     acts.append(['AddRecord', '_grist_ACLRules', None, {'resource': -(i + 1), 'aclFormula': '', 'permissionsText': 'all'}])
+  # The second user attribute is defined by a rule record that comes AFTER the rules using it (record order and
+  # rule order are independent; a renamer that learns the attributes while it walks the rules would miss these).
+  acts.append(own_rule)
   p.apply(acts)
   # dropdown conditions (ModifyColumn parses; AddColumn stores the text as it is)
   for t, c in [('Students', 'school'), ('Students', 'schools'), ('Students', 'tag'), ('Schools', 'back'), ('Students', 'choice'),
